@@ -37,7 +37,7 @@ func TestLimits(t *testing.T) {
 				for _, k := range []int{199, 200, 201, 202, 499, 500, 501, 502} {
 					yield(limProg([]byte{0x51}, cat(rep(0x61, k)), fl))
 					yield(limProg([]byte{0x51}, cat([]byte{0x00, 0x63}, rep(0x61, k-2), []byte{0x68}), fl)) // IF ... ENDIF count too, dead branch
-					yield(limProg(cat([]byte{0x51}, rep(0x61, k)), []byte{0x51}, fl))                      // the count is per script
+					yield(limProg(cat([]byte{0x51}, rep(0x61, k)), []byte{0x51}, fl))                       // the count is per script
 					yield(limProg(cat([]byte{0x51}, rep(0x61, k/2)), cat(rep(0x61, k-k/2)), fl))
 				}
 				// the P2SH redeem script is a script of its own: fresh operation count, same limits
@@ -71,9 +71,9 @@ func TestLimits(t *testing.T) {
 				for _, n := range []int{519, 520, 521, 522} {
 					d := make([]byte, n)
 					d[0] = 1
-					yield(limProg(sgen.Push(d, 0), []byte{0x82, 0x75}, fl))                             // pushed, SIZE DROP
-					yield(limProg([]byte{0x51}, cat([]byte{0x00, 0x63}, sgen.Push(d, 0), []byte{0x68}), fl)) // pushed in a dead branch
-					yield(limProg(cat(sgen.Push(d[:n-1], 0), sgen.Push(d[:1], 0)), []byte{0x7e, 0x82, 0x75, 0x51}, fl)) // CAT to n bytes
+					yield(limProg(sgen.Push(d, 0), []byte{0x82, 0x75}, fl))                                                                     // pushed, SIZE DROP
+					yield(limProg([]byte{0x51}, cat([]byte{0x00, 0x63}, sgen.Push(d, 0), []byte{0x68}), fl))                                    // pushed in a dead branch
+					yield(limProg(cat(sgen.Push(d[:n-1], 0), sgen.Push(d[:1], 0)), []byte{0x7e, 0x82, 0x75, 0x51}, fl))                         // CAT to n bytes
 					yield(limProg(cat(sgen.Push([]byte{5}, 0), sgen.Push(interp.EncodeNum(bigInt(n)), 0)), []byte{0x80, 0x82, 0x75, 0x51}, fl)) // NUM2BIN to n bytes
 				}
 			}
